@@ -419,33 +419,39 @@ func (s *Stream) executeFlow(
 		return shortCircuitNode, nil
 	}
 
-	// TODO: Handle the case where the root is not set.
-	// we need to create the globalStream nodes and set them as default root.
-	// If needed we could replace them with the needed root.
-	start, _ := flowDirection.GetRoot()
-	if utils.IsInterfaceNil(start) {
-		return shortCircuitNode, nil
-	}
-	node := start.GetNode()
-
+	// The nodes the walk starts from: normally the root of the direction; after a short circuit
+	// the targets of all the connections of the node that caused it (as intended by the user),
+	// whether or not the direction has a root of its own.
+	var startNodes []internaltypes.FlowGraphNodeI
 	if !utils.IsInterfaceNil(startFromNode) {
-		// If we have a short circuit, we need to start from the node that caused it
-		// We assume that the node (GenerateResponse) has only one edge (one target node)
-		if len(startFromNode.GetEdges()) != 0 {
-			edge := startFromNode.GetEdges()[0]
-			if !edge.IsNodeAvailable() {
-				// if no node is available, it means node connects to stream, meaning 'end of walk'
-				return shortCircuitNode, nil
+		for _, edge := range startFromNode.GetEdges() {
+			// if no node is available, it means node connects to stream, meaning 'end of walk'
+			if edge.IsNodeAvailable() {
+				startNodes = append(startNodes, edge.GetTargetNode())
 			}
-			node = edge.GetTargetNode()
-		} else {
+		}
+		if len(startNodes) == 0 {
 			log.Debug().Msgf("Short circuit node %v has no target node", startFromNode.GetProcessorKey())
 		}
+	} else {
+		// TODO: Handle the case where the root is not set.
+		// we need to create the globalStream nodes and set them as default root.
+		// If needed we could replace them with the needed root.
+		start, _ := flowDirection.GetRoot()
+		if utils.IsInterfaceNil(start) {
+			return shortCircuitNode, nil
+		}
+		startNodes = append(startNodes, start.GetNode())
 	}
 
 	var err error
 	closureFunc := func() error {
-		shortCircuitNode, err = s.apiStreams.ExecuteFlow(flow, apiStream, node, actions)
+		for _, node := range startNodes {
+			shortCircuitNode, err = s.apiStreams.ExecuteFlow(flow, apiStream, node, actions)
+			if err != nil {
+				break
+			}
+		}
 		return err
 	}
 
